@@ -141,7 +141,11 @@ type uniqueEdge struct {
 	E2   []string `json:"e2"`
 }
 
-func setKey(s []string) string { c := append([]string{}, s...); sort.Strings(c); return strings.Join(c, ",") }
+func setKey(s []string) string {
+	c := append([]string{}, s...)
+	sort.Strings(c)
+	return strings.Join(c, ",")
+}
 
 // one step of each kind against a real session; returns the observed decision
 func quotaStep(ss *stepSession, a, x string) (fwd bool, err error) {
@@ -571,7 +575,6 @@ func C18(run *core.Run) {
 	run.Set("distinct_nontrivial", distinct.Len())
 	run.Assume = append(run.Assume, "an id that was seen but has fallen out of the window may be forwarded or suppressed (the property leaves it open)")
 }
-
 
 // quotaThroughNIP11: the chain BuildMiddlewareFromNIP11 builds with max_subscriptions (plus
 // max_filters / max_limit) behaves like the Quota specification: sampled histories, decisions
